@@ -12,7 +12,12 @@
     out of scope here (C23, C29, C21). *)
 From ZV Require Import Lib.Base.
 
-Record repo := mkRepo { r_id : N; r_name : N; r_tomb : bool; r_ftombs : list N; r_other : N }.
+Record repo := mkRepo { r_id : N; r_name : N; r_tomb : bool; r_ftombs : list N; r_meta : list (N * N); r_other : N }.
+(** what a repository-level query atom may look at (Repo/RepoRegexp/RepoSet: the name, RepoIDs: the id,
+    Meta: the Metadata map as (field, value) pairs) — by construction NOT the tombstone flag nor the
+    file tombstones *)
+Record rkey := mkKey { k_id : N; k_name : N; k_meta : list (N * N) }.
+Definition key_of (r : repo) : rkey := mkKey (r_id r) (r_name r) (r_meta r).
 Record doc := mkDoc { d_repo : nat; d_file : N; d_words : list N }.
 Record shard := mkShard { sh_repos : list repo; sh_docs : list doc }.
 
@@ -25,7 +30,7 @@ Record fs := mkFs { fs_shard : option shard; fs_meta : option (list repo); fs_tm
 Inductive fault := NoFault | CreateTempFails | RenameFails.
 
 Definition set_tomb (r : repo) (b : bool) : repo :=
-  mkRepo (r_id r) (r_name r) b (r_ftombs r) (r_other r).
+  mkRepo (r_id r) (r_name r) b (r_ftombs r) (r_meta r) (r_other r).
 
 (** parseMetadata: sidecar takes precedence over the embedded repoMetaData section *)
 Definition effective (f : fs) : option (list repo) :=
@@ -76,14 +81,14 @@ Definition load (f : fs) : option view :=
 
 Inductive query :=
 | QConst (b : bool)
-| QRepo (p : N -> bool)          (* predicate on the repository name: Repo, RepoRegexp, RepoSet *)
+| QRepo (p : rkey -> bool)       (* repository-level atom: Repo, RepoRegexp, RepoSet (name), RepoIDs (id), Meta (metadata) *)
 | QDoc (p : doc -> bool)         (* predicate on the document: Substring, Regexp, ... *)
 | QAnd (a b : query) | QOr (a b : query) | QNot (a : query).
 
 Fixpoint eval (q : query) (r : repo) (d : doc) : bool :=
   match q with
   | QConst b => b
-  | QRepo p => p (r_name r)
+  | QRepo p => p (key_of r)
   | QDoc p => p d
   | QAnd a b => eval a r d && eval b r d
   | QOr a b => eval a r d || eval b r d
@@ -93,9 +98,9 @@ Fixpoint eval (q : query) (r : repo) (d : doc) : bool :=
 Definition alive (rs : list repo) : list repo := filter (fun r => negb (r_tomb r)) rs.
 
 (** simplifyMultiRepo *)
-Definition simp_repo (rs : list repo) (p : N -> bool) : query :=
+Definition simp_repo (rs : list repo) (p : rkey -> bool) : query :=
   let al := alive rs in
-  let count := length (filter (fun r => p (r_name r)) al) in
+  let count := length (filter (fun r => p (key_of r)) al) in
   if count =? length al then QConst true
   else if 0 <? count then QRepo p else QConst false.
 
@@ -178,13 +183,25 @@ Definition wf (f : fs) : Prop :=
 
 (** ---- correspondence runner *)
 Inductive cquery :=
-| CConst (b : bool) | CRepoSet (names : list N) | CFile (n : N) | CWord (w : N)
+| CConst (b : bool) | CRepoSet (names : list N) | CRepoIDs (ids : list N)
+| CRepoRe (pre : N) (nums : list N)      (* query.Repo / query.RepoRegexp with the regexp ^repo-(?:a|b)$ etc., see [name_re] *)
+| CMeta (field : N) (vals : list N)      (* query.Meta{Field, ^(?:v1|v2)$} *)
+| CFile (n : N) | CWord (w : N)
 | CAnd (a b : cquery) | COr (a b : cquery) | CNot (a : cquery).
+
+(** repository names in the harness: "repo-<k>" is coded 2k, "renamed-<k>" 2k+1.  The regexps used are
+    pre = 1: ^repo-, pre = 2: ^renamed-, otherwise "-"; followed by (?:n1|n2|..)$ when nums is non-empty *)
+Definition name_re (pre : N) (nums : list N) (n : N) : bool :=
+  match pre with 1%N => N.even n | 2%N => N.odd n | _ => true end &&
+  match nums with [] => true | _ => memN (N.div n 2) nums end.
 
 Fixpoint denote (c : cquery) : query :=
   match c with
   | CConst b => QConst b
-  | CRepoSet ns => QRepo (fun n => memN n ns)
+  | CRepoSet ns => QRepo (fun k => memN (k_name k) ns)
+  | CRepoIDs ids => QRepo (fun k => memN (k_id k) ids)
+  | CRepoRe pre nums => QRepo (fun k => name_re pre nums (k_name k))
+  | CMeta f vs => QRepo (fun k => existsb (fun fv => N.eqb (fst fv) f && memN (snd fv) vs) (k_meta k))
   | CFile n => QDoc (fun d => N.eqb (d_file d) n)
   | CWord w => QDoc (fun d => memN w (d_words d))
   | CAnd a b => QAnd (denote a) (denote b)
@@ -192,14 +209,16 @@ Fixpoint denote (c : cquery) : query :=
   | CNot a => QNot (denote a)
   end.
 
-Definition repoT := (N * N * bool * list N * N)%type.
+Definition repoT := (N * N * bool * list N * list (N * N) * N)%type.
 Definition docT := (N * N * list N)%type.
-Definition mk_repo (t : repoT) : repo := let '(i, n, b, ft, o) := t in mkRepo i n b ft o.
+Definition mk_repo (t : repoT) : repo := let '(i, n, b, ft, m, o) := t in mkRepo i n b ft m o.
 Definition mk_doc (t : docT) : doc := let '(r, f, w) := t in mkDoc (N.to_nat r) f w.
 
 Definition repo_eqb (a b : repo) : bool :=
   N.eqb (r_id a) (r_id b) && N.eqb (r_name a) (r_name b) && Bool.eqb (r_tomb a) (r_tomb b)
-  && list_eqb N.eqb (r_ftombs a) (r_ftombs b) && N.eqb (r_other a) (r_other b).
+  && list_eqb N.eqb (r_ftombs a) (r_ftombs b)
+  && list_eqb (fun x y => N.eqb (fst x) (fst y) && N.eqb (snd x) (snd y)) (r_meta a) (r_meta b)
+  && N.eqb (r_other a) (r_other b).
 
 (** observation after an operation: error?, reloaded metadata (None = unreadable), tmp files left,
     and for some queries the positions of the documents found and the ids of the repositories listed *)
